@@ -486,6 +486,10 @@ def run_job(job, unit, workdir, log=print):
         und = [o for o in res.obligations if o['status'] not in ('SUCCESS', 'FAILURE')]
         if und and not any(o['status'] == 'FAILURE' for o in res.obligations):
             raise Undecided('obligation status %s for %s' % (und[0]['status'], und[0]['name']))
+        nobody = [o for o in res.obligations if o['status'] == 'FAILURE' and 'undefined function should be unreachable' in o['description']]
+        if nobody:
+            # the code under contract now calls a function that has neither a body nor a contract here: nothing can be concluded
+            raise Undecided('callee without body or contract is reachable: %s' % ', '.join(sorted(set(o['name'].rsplit('.assertion', 1)[0] for o in nobody))[:4]))
         tot, ok, bad = res.counts()
         if bad and mode in ('harness', 'raw') and all('.unwind.' in o['name'] for o in bad):
             raise Undecided('only unwinding assertions failed (%s): the stated unwinding bound of this job is too small' % bad[0]['name'])
